@@ -151,6 +151,9 @@ class World:
         self.handles = {}  # "c0.h1" -> (spec_id, root, private_args or None)
         self.step = 0
         self.held = []  # arrays handed out by reads, kept the way a caller keeps them
+        import warnings as _w
+
+        self._env0 = (dict(np.geterr()), len(_w.filters), tuple(_w.filters[:3]))
 
     # -- argument access
     def fresh_family(self):
@@ -243,6 +246,14 @@ class World:
         chg = self._changed_args()
         if chg:
             ev["chg"] = chg
+        import warnings as _w
+
+        env = (dict(np.geterr()), len(_w.filters), tuple(_w.filters[:3]))
+        if env != self._env0:
+            # not a violation by itself (C18 speaks of results), but the usual cause of one
+            ev["env"] = {"numpy_errstate": env[0] if env[0] != self._env0[0] else None,
+                         "warnings_filters_changed": env[1:] != self._env0[1:]}
+            self._env0 = env
         return ev
 
 
